@@ -394,8 +394,153 @@ def explore(run, focus, n_random):
             run.disagree("active object with timers/cancel/stop under the same schedule", cj, diff, None)
 
 
+def run_handler_armed(spec, chooser, max_steps=2500):
+    """spec: {"arms": [(period, times, deferred, lifo)], "client_timed": [...], "pauses": n, "own_stop": bool}
+    The chart's ARM handler arms the next timed source of spec["arms"]; the control thread posts the ARM events,
+    then calls stop() (or posts STOPME, whose handler calls stop() from inside the object)."""
+    res = {"errors": []}
+    saved_pp = mao.pp
+    mao.pp = lambda x: None
+    with dsched.Installed():
+        def stop_when(s):
+            k = [t for t in s.threads if t.name == "K0"]
+            return bool(k) and k[0].finished and s.now >= HORIZON
+        sched = dsched.Sched(chooser, max_steps=max_steps, yield_filter=yield_filter)
+        dsched.Sched.current = sched
+        try:
+            arms = list(spec["arms"])
+            armed = []
+            steps = []
+
+            def s1(chart, e):
+                sn = e.signal_name
+                if sn == "ARM":
+                    steps.append(("ARM", len(sched.trace)))
+                    if arms:
+                        period, times, deferred, lifo = arms.pop(0)
+                        try:
+                            f = chart.post_lifo if lifo else chart.post_fifo
+                            armed.append(f(Event(signal="E0", payload=600000 + len(armed)), period=period, times=times, deferred=bool(deferred)))
+                        except mao.ActiveObjectOutOfPostedEventResources:
+                            pass
+                    return return_status.HANDLED
+                if sn == "STOPME":
+                    steps.append(("STOPME", len(sched.trace)))
+                    chart.stop()
+                    res["own_stop_returned_at"] = len(sched.trace)
+                    return return_status.HANDLED
+                if sn == "E0":
+                    steps.append(("E0", len(sched.trace)))
+                    return return_status.HANDLED
+                if e.signal in (signals.ENTRY_SIGNAL, signals.INIT_SIGNAL, signals.EXIT_SIGNAL):
+                    return return_status.HANDLED
+                chart.temp.fun = chart.top
+                return return_status.SUPER
+            ao = mao.ActiveObject(name="C")
+            sched.name_obj(ao.locking_deque.deque, "dq")
+            sched.name_obj(ao.locking_deque.locking_queue, "tok")
+            sched.name_obj(ao.activeobject_task_event, "run")
+            ao.start_at(s1)
+            sched.name_obj(ao.fabric_task_event, "fab")
+
+            def client():
+                for period, times, deferred, lifo in spec["client_timed"]:
+                    sched.yield_point("call.timed")
+                    (ao.post_lifo if lifo else ao.post_fifo)(Event(signal="E0", payload=500000), period=period, times=times,
+                                                               deferred=bool(deferred))
+                for _ in range(len(spec["arms"])):
+                    sched.yield_point("call.post")
+                    ao.post_fifo(Event(signal="ARM"))
+                for _ in range(spec["pauses"]):
+                    sched.yield_point("call.pause")
+                if spec["own_stop"]:
+                    sched.yield_point("call.post")
+                    ao.post_fifo(Event(signal="STOPME"))
+                else:
+                    sched.yield_point("call.stop")
+                    ao.stop()
+                    res["stop_returned_at"] = len(sched.trace)
+            sched.spawn(client, (), name="K0")
+            res["outcome"] = sched.run(stop_when=stop_when)
+            res["trace"] = sched.trace
+            res["steps"] = steps
+            res["now"] = sched.now
+            res["finished"] = {t.name: t.finished for t in sched.threads}
+            for t in sched.threads:
+                if t.error is not None:
+                    res["errors"].append("%s: %s: %s" % (t.name, type(t.error).__name__, t.error))
+            timers = sorted([t for t in sched.threads if t.name.startswith("timer")], key=lambda t: int(t.name[5:]))
+            res["timers"] = [{"name": t.name, "flag": int(t.args[0].task_run_event._flag), "finished": t.finished} for t in timers]
+            res["tracked"] = len(ao.posted_events_queue)
+        finally:
+            leaked = sched.shutdown()
+            mao.pp = saved_pp
+            if leaked:
+                res["errors"].append("leaked: %s" % leaked)
+    return res
+
+
+def explore_handler_armed(run, n):
+    """oracle-only stream for C12 (the Lean model's handlers do not arm timed sources): sources armed by a
+    run-to-completion step that is in progress / still queued when stop() is called"""
+    rng = run.rng
+    for _ in range(n):
+        spec = {"arms": [(rng.randint(1, 3), rng.choice([0, 0, 2, 3]), int(rng.random() < 0.7), int(rng.random() < 0.3))
+                         for _ in range(rng.randint(1, 3))],
+                "client_timed": [(rng.randint(1, 3), rng.choice([0, 2]), 1, 0)] if rng.random() < 0.4 else [],
+                "pauses": rng.choice([0, 0, 1, 2, 4]),
+                "own_stop": rng.random() < 0.25}
+        seed = rng.randrange(1 << 30)
+        r2 = random.Random(seed)
+        if r2.random() < 0.5:
+            base, kind = dsched.pct_chooser(r2, depth=r2.randint(1, 3), est_len=120), "pct"
+        else:
+            base, kind = dsched.random_chooser(r2, clock_bias=0.1), "random"
+        res = run_handler_armed(spec, base)
+        trace = res["trace"]
+        cj = {"what": "handler-armed", "spec": spec, "chooser": kind, "seed": seed, "schedule": [e[0] for e in trace]}
+        run.count("handler-armed stream: stop() from %s" % ("a handler" if spec["own_stop"] else "another thread"))
+        if res["errors"]:
+            run.violate("C12/thread-error", "a thread died: %s" % res["errors"][:2], cj)
+        if not spec["own_stop"]:
+            done = res.get("stop_returned_at")
+            if done is None:
+                if res["outcome"] != "bound":
+                    run.violate("C12/stop-never-returns", "stop() did not return (outcome %s)" % res["outcome"], cj)
+                run.case(cj, nontrivial=True)
+                continue
+            if not res["finished"].get("C"):
+                run.violate("C12/thread-not-ended", "stop() returned but the active object's thread is still alive", cj)
+            if any(i >= done for _, i in res["steps"]):
+                run.violate("C12/step-after-stop", "a run-to-completion step ran after stop() returned", cj)
+            late = [e for e in trace[done:] if e[0].startswith("timer") and e[1] in ("dq.append", "dq.appendleft")]
+            if late:
+                run.violate("C12/post-after-stop-returned", "%s (armed by a handler: %d sources armed before stop() returned) placed an event "
+                            "in the queue after stop() had returned" % (late[0][0], len(res["timers"])), cj)
+            live = [t["name"] for t in res["timers"] if t["flag"]]
+            if live:
+                run.violate("C12/source-not-cancelled", "timed sources %s still have their run flag set after stop() returned "
+                            "(%d still tracked)" % (live, res["tracked"]), cj)
+            if any(i < done for nm, i in res["steps"] if nm == "ARM") and res["timers"]:
+                run.count("handler-armed stream: a source was armed by a step before stop() returned")
+        else:
+            # stop() from a handler: the thread ends after the current step
+            at = res.get("own_stop_returned_at")
+            if at is not None:
+                if res["outcome"] != "bound" and not res["finished"].get("C"):
+                    run.violate("C12/thread-not-ended", "stop() was called from a handler but the object's thread never ended", cj)
+                later = [nm for nm, i in res["steps"] if i > at]
+                if later:
+                    run.violate("C12/step-after-own-stop", "steps %s ran after the step whose handler called stop()" % later, cj)
+        run.case(cj, nontrivial=True)
+
+
 def replay(case):
     cc = case.get("case", case)
+    if cc.get("what") == "handler-armed":
+        res = run_handler_armed(cc["spec"], dsched.scripted_chooser(cc["schedule"], then=dsched.round_robin_chooser()))
+        print({k: v for k, v in res.items() if k != "trace"})
+        return 0
     sc = AoScenario.from_json(cc["scenario"])
     ar = run_real(sc, dsched.scripted_chooser(cc["schedule"], then=dsched.round_robin_chooser()))
     out = leanrun.run_driver([sc.encode([t for t, _, _ in modelled_steps(ar)])])[0]
